@@ -28,6 +28,7 @@ def sh(cmd, cwd=None, timeout=3000):
 def main():
     pid, src, name = sys.argv[1], sys.argv[2], sys.argv[3]
     skip_suite = "--skip-suite" in sys.argv
+    suite_only = "--suite-only" in sys.argv  # re-establish the demo and suite facts, keep the recorded check result
     tier = "quick"
     if "--tier" in sys.argv:
         tier = sys.argv[sys.argv.index("--tier") + 1]
@@ -82,25 +83,47 @@ def main():
                     verdict.setdefault("suite_first_run_failures", []).extend(failed)
                     rs2 = sh("go test -vet=off -count=1 %s 2>&1" % " ".join(failed), cwd=os.path.join(wt, mod), timeout=3000)
                     failed2 = sorted(set(re.findall(r"^FAIL[ \t]+(\S+)", rs2.stdout, re.M)))
-                    if failed2:
+                    # ... and, since several packages bind fixed TCP ports that other experiments on
+                    # this machine use at the same time, fails again alone in a private network
+                    # namespace while the unchanged tree passes there
+                    still = []
+                    for pkg in failed2:
+                        ns = "unshare -n bash -c 'ip link set lo up; go test -vet=off -count=1 %s 2>&1'" % pkg
+                        rs3 = sh(ns, cwd=os.path.join(wt, mod), timeout=3000)
+                        if rs3.returncode == 0 and "FAIL" not in rs3.stdout:
+                            verdict.setdefault("suite_passes_in_private_netns", []).append(pkg)
+                            continue
+                        sh(["git", "-C", wt, "apply", "-R", os.path.join(os.path.abspath(src), "patch.diff")])
+                        rs4 = sh(ns, cwd=os.path.join(wt, mod), timeout=3000)
+                        sh(["git", "-C", wt, "apply", os.path.join(os.path.abspath(src), "patch.diff")])
+                        if rs4.returncode != 0 or "FAIL" in rs4.stdout:
+                            verdict.setdefault("suite_fails_without_change_too", []).append(pkg)
+                            continue
+                        still.append(pkg)
+                        print(rs3.stdout[-1500:])
+                    if still:
                         ok = False
-                        verdict.setdefault("suite_failures", []).extend(failed2)
-                        print(rs2.stdout[-1500:])
+                        verdict.setdefault("suite_failures", []).extend(still)
                 elif "FAIL" in rs.stdout or rs.returncode != 0:
                     ok = False
                     print(rs.stdout[-1500:])
             verdict["existing_suite_passes_with_change"] = ok
-        t0 = time.time()
-        rc = sh([os.path.join(VERIF, "check"), pid, "--repo", wt, "--tier", tier], cwd=VERIF, timeout=7000)
-        out = rc.stdout
-        viol = [l for l in out.splitlines() if l.startswith("VIOLATION")]
-        sigs = [l[4:260] for l in out.splitlines() if l.startswith("--- ")]
-        verdict["check_tier"] = tier
-        verdict["check_result"] = "caught" if viol else ("inconclusive" if rc.returncode == 2 else "missed")
-        verdict["check_wall_s"] = round(time.time() - t0)
-        verdict["check_first_signature"] = sigs[0] if sigs else ""
-        if not viol:
-            print(out[-1200:])
+        if suite_only:
+            for k, v in (meta.get("verified") or {}).items():
+                if k.startswith("check_"):
+                    verdict[k] = v
+        else:
+            t0 = time.time()
+            rc = sh([os.path.join(VERIF, "check"), pid, "--repo", wt, "--tier", tier], cwd=VERIF, timeout=7000)
+            out = rc.stdout
+            viol = [l for l in out.splitlines() if l.startswith("VIOLATION")]
+            sigs = [l[4:260] for l in out.splitlines() if l.startswith("--- ")]
+            verdict["check_tier"] = tier
+            verdict["check_result"] = "caught" if viol else ("inconclusive" if rc.returncode == 2 else "missed")
+            verdict["check_wall_s"] = round(time.time() - t0)
+            verdict["check_first_signature"] = sigs[0] if sigs else ""
+            if not viol:
+                print(out[-1200:])
     finally:
         sh(["git", "-C", "/repo", "worktree", "remove", "--force", wt])
         import hashlib
